@@ -107,6 +107,11 @@ class ConvertScalarValueSpec(FunctionSpec):
         ctx["R"], ctx["st"] = R, R.snapshot()
         return ctx
 
+    def inline_when(self, I, f, args, kwargs):
+        q = args[0]
+        qi = getattr(getattr(q, "o", None), "qinfo", None)
+        return qi is None or qi["kind"] != "simple"
+
     def cases(self, I, ctx):
         R, st = ctx["R"], ctx["st"]
         q, v, tu = ctx["self"], ctx["value"], ctx["to_unit"]
@@ -115,7 +120,8 @@ class ConvertScalarValueSpec(FunctionSpec):
             return [unspecified("derived-or-unknown-shape", T)]
         if not isinstance(v, SNum):
             return [unspecified("non-float value", T)]
-        u, key, c = qi["u"], qi["key"], qi["c"]
+        u, c = qi["u"], qi["c"]
+        tbt = q.o.fields["_tobase"].t  # QI: the registered to-base function of the (resolved) unit
         qt = S(st["C_qt"], c)
         same = u == tu.name
         out = [ret("own-unit", same, v, props=("C02",))]
@@ -127,7 +133,7 @@ class ConvertScalarValueSpec(FunctionSpec):
                 def chk(I, res, x=x):
                     if not isinstance(res, SNum):
                         return False
-                    r = res.real() == conv_term(st, key, x, v.real())
+                    r = res.real() == app(S(st["U_fb"], x), app(tbt, v.real()))
                     if v.extended:
                         if not res.extended:
                             return False
@@ -135,7 +141,7 @@ class ConvertScalarValueSpec(FunctionSpec):
                     return r
 
                 def val(I, x=x):
-                    t = conv_term(st, key, x, v.real())
+                    t = app(S(st["U_fb"], x), app(tbt, v.real()))
                     if v.extended:
                         return SNum(t, "float", v.nan, v.pinf, v.ninf)
                     return SNum(t, "float")
@@ -215,11 +221,12 @@ class CheckValueSpec(FunctionSpec):
         lits = ctx["use_literals"].concrete()
         if lits is None:
             return [unspecified("symbolic use_literals", T)]
-        c, u, key = qi["c"], qi["u"], qi["key"]
+        c, u = qi["c"], qi["u"]
+        tbt = q.o.fields["_tobase"].t
         L = limit_terms(R, st, c)
         du = S(st["C_du"], c)
         # y: the amount in the default unit
-        conv = app(S(st["U_fb"], du), app(S(st["U_tb"], key), v.real()))
+        conv = app(S(st["U_fb"], du), app(tbt, v.real()))
         yr = z3.If(u == du, v.real(), conv)
         if v.extended:
             y = SNum(yr, "float", v.nan, v.pinf, v.ninf)
